@@ -14,5 +14,52 @@ CHECKS = {
   'note': TB + "Modelled: CPython int()/str(), isoformat, regex matching as transcribed; lxml XMLSchema is the XSD oracle.",
   'technique': 'Coq proof over Gallina model + generated tables; differential correspondence',
  },
+ 'C05': {
+  'text': "Theorems, for all customised attribute sets and all integers, that the validate_native functions regenerated "
+          "from the source on every run equal the specification (range facets, hardware bounds, enumeration, nillability), "
+          "that the text-protocol and number-protocol enforcement paths give the same verdict for the same logical value, "
+          "and that occurrence counting gives the same verdict over XML and dict documents and is exactly min<=n<=max; "
+          "the path models are tied to /repo by differential evaluation and an end-to-end oracle drives generated services "
+          "through all six protocol families at every nesting position.",
+  'design_ref': 'DESIGN.md section 6 (C05)',
+  'note': TB + "Proved for the integer family, None handling and occurrence counting; Unicode length/pattern/enumeration, "
+          "lexical well-formedness of date/time/boolean literals are decided by the end-to-end oracle against a Python "
+          "reference predicate and lxml's XSD validator (listed findings in known_findings.json).",
+  'technique': 'Coq proof over source-generated validation functions + differential correspondence + e2e oracle',
+ },
+ 'C13': {
+  'text': "Theorems over a trace model of WsgiApplication (handle_rpc / handle_error / handle_wsdl_request / the bounded "
+          "body reader / _ResponseIterator), for every request, CONTENT_LENGTH text, configuration, input stream "
+          "(universally quantified list of read answers), outcome of each lower layer, and abort point: start_response "
+          "is called at most once and before any chunk, exactly once when the lower layers raise only Faults; a "
+          "Content-Length header equals the body size; never more than max_content_length bytes are read or asked for; "
+          "a body that does not fit ends in RequestTooLong without user code; the context is closed exactly once and "
+          "not before the body is handed over. The deciding expressions of the body reader are regenerated from "
+          "wsgi.py on every run and the whole trace model is tied to /repo by differential evaluation of ~1600 "
+          "instrumented WSGI calls per run.",
+  'design_ref': 'DESIGN.md section 6 (C13)',
+  'note': TB + "Lower layers (protocols, user code, serialisers) enter as universally quantified per-stage outcomes; "
+          "PEP 3333 typing rules (str headers, bytes chunks) are observed by the oracle and wsgiref.validate, not "
+          "proved; MTOM, auxiliary contexts, push interface and raising listeners are not modelled. One finding listed "
+          "(HttpRpc never reads an undeclared body).",
+  'technique': 'Coq proof over a trace model of the WSGI layer + source-generated reader expressions + differential correspondence',
+ },
+ 'C17': {
+  'text': "Theorems that the parser configuration REGENERATED from the source on every run (XmlDocument.__init__ defaults, "
+          "the parser_kwargs dict, the parser argument and the try/except around every lxml parse call reachable from a "
+          "request in xml.py, soap11.py, soap12.py, mime.py, _inbase.py) is safe at every request site, and that under a "
+          "safe configuration, for ALL documents and ALL file-system/network contents, the modelled libxml2 parse opens "
+          "nothing, returns a result independent of the outside world, keeps the request's own tree verbatim (no entity "
+          "expanded into element content, no DTD defaults), accepts depth <= 256 only, and every rejection (bombs, "
+          "nesting, loops) is a Client.XMLSyntaxError fault; each safety clause is shown necessary by a witness. The "
+          "libxml2 option model is tied to the real parser by differential evaluation under 15 configurations, and a "
+          "direct oracle watches canary files (inotify), a localhost socket and canary strings on 7 request routes.",
+  'design_ref': 'DESIGN.md section 6 (C17)',
+  'note': TB + "libxml2/lxml option semantics are modelled (coq/C17/Xml.v) and compared with the real parser, not verified; "
+          "bounded time/memory is measured on a subprocess, not proved; network fetches cannot be attempted by this "
+          "sandbox's libxml2 at all, so no_network is covered by the proof obligation only. One finding family listed: "
+          "internal entities referenced in ATTRIBUTE values are substituted by libxml2 on read.",
+  'technique': 'Coq proof over source-generated parser configuration + libxml2 option model; differential correspondence; canary oracle',
+ },
 }
 NOT_APPLICABLE = {}
